@@ -198,8 +198,9 @@ func parseCaretConstraint(version string) ([]*constraint, error) {
 				{operator: "<", version: upperVersion},
 			}, nil
 		}
-	} else if v.minor > 0 {
+	} else if v.minor > 0 || strings.Count(version, ".") == 1 {
 		// Compatible changes within the same minor version for 0.x
+		// (^0.0 without a patch component means >=0.0.0 <0.1.0)
 		if v.stability == stabilityStable {
 			baseVersionStr := fmt.Sprintf("0.%d.%d", v.minor, v.patch)
 			baseVersion, err := e.NewVersion(baseVersionStr)
